@@ -155,6 +155,118 @@ def nullable_run(fns, table, comb):
 
 
 # =====================================================================================
+# left recursion: every cycle of "may be called before anything is consumed" passes through a #[recursive_parser] production
+# =====================================================================================
+def first_expr(e, N, table):
+    """productions that may be invoked at the position where parser expression e starts"""
+    t = e[0]
+    if t in ('var', 'path'):
+        n = e[1]
+        return {n} if n in table else set()
+    if t == 'call':
+        f = e[1][1] if e[1][0] in ('var', 'path') else None
+        a = e[2]
+        if f is None:
+            return set()
+        if f in PRIMS or f in ('tag', 'tag_no_case', 'symbol', 'symbol_exact', 'keyword'):
+            return set()
+        if f in ('alt',):
+            parts = a[0][1] if a and a[0][0] == 'tuple' else a
+            out = set()
+            for x in parts:
+                out |= first_expr(x, N, table)
+            return out
+        if f in ('pair', 'tuple', 'triple', 'terminated', 'preceded', 'delimited', 'separated_pair', 'many_till', 'list', 'separated_list0', 'separated_list1'):
+            parts = a[0][1] if (f == 'tuple' and a and a[0][0] == 'tuple') else a
+            out = set()
+            for x in parts:
+                out |= first_expr(x, N, table)
+                if not nullable_expr(x, N, {}):
+                    break
+            return out
+        if f in ('paren', 'paren_exact', 'bracket', 'brace', 'apostrophe_brace'):
+            return set()                  # the opening symbol is consumed first
+        if f == 'value':
+            return first_expr(a[1], N, table) if len(a) > 1 else set()
+        if f in table:
+            return {f}
+        out = set()
+        for x in a:                       # opt, many0, many1, map, peek, not, context, ws, ...: whatever they wrap starts here
+            if isinstance(x, tuple) and x and x[0] in ('call', 'var', 'path'):
+                out |= first_expr(x, N, table)
+        return out
+    return set()
+
+
+def first_body(block, N, table):
+    out = set()
+    for st in block[1]:
+        e = st[2] if st[0] == 'let' else st[1] if st[0] in ('ret', 'expr') else None
+        if e is None:
+            continue
+        p_ = None
+        if e[0] == 'try' and e[1][0] == 'call' and e[1][2] == [('var', 's')]:
+            p_ = e[1][1]
+        elif e[0] == 'call' and e[2] == [('var', 's')]:
+            p_ = e[1]
+        elif e[0] == 'if' and e[3] is not None:
+            for b in (e[2], e[3]):
+                if b[0] == 'block':
+                    out |= first_body(b, N, table)
+            return out
+        if p_ is None:
+            continue
+        out |= first_expr(p_, N, table)
+        if not nullable_expr(p_, N, {}):
+            return out
+    return out
+
+
+def leftrec_run(fns, table, comb, N):
+    """A production that can reach itself before any input is consumed recurses forever unless the cycle passes through a production
+    carrying #[recursive_parser] (nom-recursive makes the re-entry at the same position fail).  Stack exhaustion is an abort, not an Err."""
+    failures = []
+    G = {}
+    for n, f in table.items():
+        if f.ast:
+            G[n] = first_body(f.ast, N, table) & set(table)
+    plain = {n for n in G if not table[n].recursive}
+    # cycles among productions WITHOUT the attribute (iterative DFS, colouring)
+    color = {}
+    bad = []
+    for root in sorted(plain):
+        if root in color:
+            continue
+        stack = [(root, iter(sorted(G[root] & plain)))]
+        color[root] = 1
+        path = [root]
+        while stack:
+            node, it = stack[-1]
+            nxt = next(it, None)
+            if nxt is None:
+                color[node] = 2
+                stack.pop()
+                path.pop()
+                continue
+            if color.get(nxt) == 1:
+                bad.append(path[path.index(nxt):] + [nxt])
+            elif nxt not in color:
+                color[nxt] = 1
+                path.append(nxt)
+                stack.append((nxt, iter(sorted(G[nxt] & plain))))
+    seen = set()
+    for cyc in bad:
+        key = frozenset(cyc)
+        if key in seen:
+            continue
+        seen.add(key)
+        f = table[cyc[0]]
+        failures.append(fail(cyc[0], 'leftrec.%s' % cyc[0], 'left recursion without #[recursive_parser]: %s can be re-entered before anything is consumed (unbounded recursion: the stack overflows)' % ' -> '.join(cyc),
+                             ['C08', 'C02'], f))
+    return dict(failures=failures, checked=len(plain), undecided=[], n_recursive=len(G) - len(plain))
+
+
+# =====================================================================================
 # top rules: shape of the four top-level productions  (C01 coverage, C15)
 # =====================================================================================
 def _binds(f):
